@@ -368,6 +368,12 @@ func variantAddr(base string, v int) string {
 		return "evil.example"
 	case 2:
 		return ""
+	case 3:
+		// the same account under another resource (only for addresses that have one)
+		if i := strings.Index(base, "/"); i >= 0 {
+			return base[:i] + "/evil"
+		}
+		return base
 	}
 	return base
 }
@@ -377,14 +383,14 @@ func restartBody(c *nd.Ctx) nd.Result {
 	nRestarts := 1 + c.Choose(2, "restarts")
 	var fromV, toV, nsV []int
 	for i := 0; i < nRestarts; i++ {
-		fromV = append(fromV, c.Choose(3, "from-variant"))
-		toV = append(toV, c.Choose(3, "to-variant"))
+		fromV = append(fromV, c.Choose(4, "from-variant"))
+		toV = append(toV, c.Choose(4, "to-variant"))
 		nsV = append(nsV, c.Choose(3, "content-namespace-variant")) // 0 as before, 1 not declared, 2 unsupported
 	}
 	origin := jid.MustParse("me@example.com/res")
 	location := jid.MustParse("example.com")
 	c.Note("role recv=%v restarts=%d from-variants=%v to-variants=%v namespace-variants=%v", recv, nRestarts, fromV, toV, nsV)
-	desc := fmt.Sprintf("recv=%v restarts=%d from-variants=%v to-variants=%v (0 same, 1 different, 2 absent) content-namespace-variants=%v (0 same, 1 not declared, 2 unsupported)", recv, nRestarts, fromV, toV, nsV)
+	desc := fmt.Sprintf("recv=%v restarts=%d from-variants=%v to-variants=%v (0 same, 1 different, 2 absent, 3 same account under another resource) content-namespace-variants=%v (0 same, 1 not declared, 2 unsupported)", recv, nRestarts, fromV, toV, nsV)
 	res := nd.Result{Outcome: "restart", NonTrivial: desc}
 	feats := []xmpp.StreamFeature{restartFeature(1), restartFeature(2)}
 
@@ -400,9 +406,11 @@ func restartBody(c *nd.Ctx) nd.Result {
 	firstDiff := 0
 	nsCause := false // the first bad header is bad only because of its content namespace
 	for i := 0; i < nRestarts; i++ {
-		if fromV[i] == 1 || toV[i] == 1 || nsV[i] != 0 {
+		fromDiffers := fromV[i] == 1 || (fromV[i] == 3 && variantAddr(baseFrom, 3) != baseFrom)
+		toDiffers := toV[i] == 1 || (toV[i] == 3 && variantAddr(baseTo, 3) != baseTo)
+		if fromDiffers || toDiffers || nsV[i] != 0 {
 			firstDiff = i + 1
-			nsCause = fromV[i] != 1 && toV[i] != 1
+			nsCause = !fromDiffers && !toDiffers
 			break
 		}
 	}
